@@ -154,34 +154,4 @@ theorem Box3.eq_of_subset_subset (a c : Box3 α) (ha : ¬ Box3.Inverted a) (hc :
 
 end ring
 
-section field
-variable [Field α] [LinearOrder α] [IsStrictOrderedRing α]
-
-/-- for an affine matrix `points[i] * m` (with its homogeneous divide by `w = 1`) is the affine image -/
-theorem vecTimesM44_affine (m : M44 α) (h : isAffine m = true) (c : V3 α) :
-    Gen.BoxAlgo.vecTimesM44 c m = affImg m c := by
-  simp only [isAffine, Bool.and_eq_true, decide_eq_true_eq] at h
-  obtain ⟨⟨⟨h0, h1⟩, h2⟩, h3⟩ := h
-  simp only [Gen.BoxAlgo.vecTimesM44, affImg, affCoord, h0, h1, h2, h3, mul_zero, add_zero, zero_add, div_one]
-
-/-- the eight-corner loop as a sequence of `extendBy(point)` calls -/
-theorem projective_eq_extendAll (start b : Box3 α) (m : M44 α) :
-    projective start b m = Box3.extendAll start ((corners b).map (fun c => Box3.Arg.pt (Gen.BoxAlgo.vecTimesM44 c m))) := by
-  simp only [projective, Box3.extendAll, List.foldl_map, Box3.step]
-
-/-- the eight-corner loop from an API-reachable start box: least box containing `start` and the eight images -/
-theorem projective_spec (tmax tlowest : α) (hlt : tlowest < tmax) (hr : ∀ x : α, tlowest ≤ x ∧ x ≤ tmax)
-    (start b : Box3 α) (m : M44 α) (hs : Box3.Canon tmax tlowest start) :
-    Box3.Canon tmax tlowest (projective start b m) ∧
-    ∀ c', Box3.Subset (projective start b m) c' ↔
-      Box3.Subset start c' ∧ ∀ c ∈ corners b, Box3.Mem (Gen.BoxAlgo.vecTimesM44 c m) c' := by
-  rw [projective_eq_extendAll]
-  have h := Box3.extendAll_spec tmax tlowest hlt hr
-    ((corners b).map (fun c => Box3.Arg.pt (Gen.BoxAlgo.vecTimesM44 c m))) start hs
-    (by intro a ha; simp only [List.mem_map] at ha; obtain ⟨c, -, rfl⟩ := ha; trivial)
-  refine ⟨h.1, fun c' => ?_⟩
-  rw [h.2 c']
-  simp only [List.mem_map, forall_exists_index, and_imp, forall_apply_eq_imp_iff₂, Box3.Arg.Within]
-
-end field
 end ImathVerif.BoxTransform
